@@ -138,10 +138,10 @@ mutual
   def paramAssignment : Nat → P Sx
     | 0 => fail
     | f+1 =>
-      (do let _ ← opt (tok "Not"); ws
+      (do let neg ← opt (tok "Not"); ws
           let src ← variableName; ws; let _ ← tok "RightArrow"; ws
           let tgt ← variableP f
-          pure (.t "Output" [.n "Output" [("not", .bool false), ("src", src), ("tgt", tgt)]]))
+          pure (.t "Output" [.n "Output" [("not", .bool neg.isSome), ("src", src), ("tgt", tgt)]]))
       <|> (do let name ← opt (do let n ← variableName; ws; let _ ← tok "Assignment"; pure n)
               ws
               let e ← expression f
